@@ -52,6 +52,11 @@ D = {
  'C09_4': ('C09', 'btor2 ascii_lowercase_u64_cold: match guard keeps requesting all 8 offsets after the keyword ended (variant of C09_2)', 'line-by-line input and fewer than 8 bytes from the keyword to the end of the line'),
  'C04_4': ('C04', 'aiger eof(): check_io_error().is_ok() instead of io_error().is_none(): the parked error is consumed, the caller reports a syntax error', 'a source failing exactly where the file could legally end'),
  "C16_2": ("C16", "same change as C01_2 (newline CR look-ahead)", "read boundary between CR and LF"),
+ 'C03_6': ('C03', 'same change as C03_2 (btor2 node_buf.clear() dropped in the justice arm), written independently by a second sub-agent', 'two or more justice lines parsed by the same Parser'),
+ 'C04_5': ('C04', 'btor2 comment_body: the parked-error check is guarded by reader.is_at_end() (cursor not yet advanced) instead of request_byte_at_offset(offset).is_none()', 'a source failing inside a non-empty BTOR2 comment body before its newline: truncated comment handed out, IoError only on the next call'),
+ 'C10_3': ('C10', 'cnf token::newline skips a whole run of blank/whitespace-only lines by look-ahead and advances once at the end', 'a run of consecutive empty or whitespace-only lines longer than a few chunks: buffer grows with the run (results and positions unchanged)'),
+ 'C15_3': ('C15', 'Parsed::map collapses Res(Err(e)) into Fallthrough (error dropped, alternatives run after commitment)', 'map applied to a parser that matched and then failed, followed by or_parse / optional / matches / or_give_up; no in-tree use of map wraps a failing parser'),
+ 'C16_3': ('C16', 'text::next_newline scans the buffered slice first, then sets offset = buf.len() (moves backwards when the start offset lies beyond the buffered data)', 'start offset beyond the bytes buffered so far with an LF in the unbuffered region; the DIMACS tokenizers never call it that way'),
 }
 rows = []
 for sid in sorted(D):
